@@ -116,7 +116,13 @@ def execute(c):
     if c["var"] == "big":
         t = convert(big_text(c["kind"], c["n"], c["label"]), lib.vid(c) % 2, lib.vid(c))
         return project(t)
-    t = convert(render(c["run"], c["style"]), c["api"], lib.vid(c))
+    text = render(c["run"], c["style"])
+    if c.get("pad"):
+        # blanks are inserted in front of a comment so that the comment straddles a multiple of a typical read-buffer size (blanks are not tokens)
+        k = text.find(";")
+        if 0 <= k < c["pad"]:
+            text = text[:k] + " " * (c["pad"] - k) + text[k:]
+    t = convert(text, c["api"], lib.vid(c))
     return project(t)
 
 
@@ -138,6 +144,9 @@ def expand(docs, rng, q):
         base = {"toks": toks, "exp": exp, "label": label}
         cases.append(dict(base, var="complete", run=toks, style=d % 10, api=d % 3))
         cases.append(dict(base, var="complete", run=toks, style=(d + 5) % 10, api=0))
+        if any(t[0] == ";" for t in toks):          # a comment across the 4 KiB / 8 KiB / 64 KiB marks of the character stream
+            for pad in (4094, 8190, 65533):
+                cases.append(dict(base, var="complete", run=toks, style=(d + pad) % 10, api=(d + pad) % 3, pad=pad))
         for m in (1, 2):          # the same document with coincident points
             cases.append(dict(base, var="dup", m=m, run=dup_stream(toks, m), style=(d + m) % 10, api=(d + m) % 3))
         ks = list(range(0, len(toks)))
